@@ -361,5 +361,41 @@ def rule_i(ctx: Ctx) -> None:
                 'stores `self.attributes` and `self.content`.')
 
 
-RULES = [rule_a, rule_b, rule_c, rule_d, rule_e, rule_f, rule_g, rule_h, rule_i]
+def rule_j(ctx: Ctx) -> None:
+    """Which name a local attribute declaration answers to: an explicit `form` decides; attributeFormDefault only when there is none."""
+    rule = 'C03.j'
+    f = ctx.idx.method('xmlschema.validators.attributes.XsdAttribute', '_parse')
+    ctx.analysed(f.qualname)
+    g = cfg_of(ctx, f)
+    sets = [n for n in g.nodes if n.kind == 'stmt' and isinstance(n.ast, ast.Assign) and text(n.ast.targets[0]) == 'self.qualified' and text(n.ast.value) == 'True']
+    ctx.floor(rule, 'sites that make a local attribute qualified', len(sets), 2)
+    kinds = set()
+    for n in sets:
+        gs = guards(ctx, f, n)
+        T = [t for t, lab in gs if lab == 'T']
+        F = [t for t, lab in gs if lab == 'F']
+        conj = [a for t in T for a in _and_parts(t)]
+        by_form = "'form' in attrib" in conj and "self.form == 'qualified'" in conj
+        by_default = "'form' in attrib" in F and "self.schema.attribute_form_default == 'qualified'" in conj
+        ok = by_form or by_default
+        kinds.add('form' if by_form else ('default' if by_default else 'other'))
+        ctx.ob(rule, 'XsdAttribute._parse: a local attribute is qualified by its own form="qualified", or by attributeFormDefault when it has no form', f.loc(n.ast), ok,
+               '' if ok else f'made qualified under T={T[-2:]} F={F[-2:]}: an explicit form="unqualified" no longer overrides attributeFormDefault="qualified" - the '
+               'unqualified attribute is rejected and the qualified spelling accepted', key=f'XsdAttribute._parse|qualified|{"form" if by_form else ("default" if by_default else "other")}')
+    ok = {'form', 'default'} <= kinds
+    ctx.ob(rule, 'XsdAttribute._parse: both sources of qualification are present', f.loc(), ok, f'{sorted(kinds)}', key='XsdAttribute._parse|qualified|both', nontrivial=False)
+    ctx.explain('C03.j: path conditions of `self.qualified = True` in XsdAttribute._parse (own form vs schema default).')
+
+
+def _and_parts(t: str) -> list:
+    try:
+        e = ast.parse(t, mode='eval').body
+    except SyntaxError:
+        return [t]
+    if isinstance(e, ast.BoolOp) and isinstance(e.op, ast.And):
+        return [text(v) for v in e.values]
+    return [t]
+
+
+RULES = [rule_a, rule_b, rule_c, rule_d, rule_e, rule_f, rule_g, rule_h, rule_i, rule_j]
 THOROUGH = [thorough]
